@@ -29,8 +29,8 @@ type Prog struct {
 	ByPath  map[string]*packages.Package // every package, deps included
 	// sentinels: see sentinelError
 	sentinels map[*ssa.Global]bool
-	SSA     *ssa.Program
-	Funcs   []*ssa.Function // every function with a body that belongs to the module (incl. closures)
+	SSA       *ssa.Program
+	Funcs     []*ssa.Function // every function with a body that belongs to the module (incl. closures)
 
 	cha *callgraph.Graph
 	vta *callgraph.Graph
